@@ -636,13 +636,15 @@ def symbolic_jump_cases():
                 return nx
 
             sevm = NS(options=NS(symbolic_jump=enabled), create_branch=create_branch)
-            ex = NS(pgm=NS(valid_jumpdests=lambda: list(valid)), check=oracle, pc=2)
+            cached = set(valid)  # Contract.valid_jumpdests returns its cached set itself (C19 contract), shared by all paths
+            ex = NS(pgm=NS(valid_jumpdests=lambda: cached), check=oracle, pc=2)
             state = NS(pop=lambda: hb.HalmosBitVec(dst))
             stack = NS(push=lambda e: pushed.append(e))
             sf, fn, first = run_dispatch_chain()
             env = Env({"self": sevm, "ex": ex, "state": state, "opcode": hs.OP_JUMP, "stack": stack, "insn": NS(opcode=hs.OP_JUMP, next_pc=3)}, None, hs.__dict__)
             body = select_arm(interp, first, env)
             kind, payload, _ = interp.exec_fragment(body, env, qual="halmos.sevm:SEVM.run#JUMP-symbolic")
+            ctx.oblige("frame: the code's cached set of valid jump destinations (shared by every path and transaction) is not modified", z3.BoolVal(cached == set(valid)), info={"now": str(sorted(cached))})
             if not enabled:
                 ctx.oblige("symbolic jump target without --symbolic-jump: flagged as unsupported (stuck path), never guessed", z3.BoolVal(kind == "raise" and isinstance(payload, NotConcreteError) and not pushed))
                 return
